@@ -110,6 +110,10 @@ def handle (fs : List String) : String :=
       let content ← pList pStr
       let loads ← pLoads
       pure (showDoc (yamlParse asciiLower loads ignore content))) rest
+  | "yamls" :: rest => run (do
+      let content ← pStr
+      let loads ← pLoads
+      pure (showDoc (yamlParseStr loads content))) rest
   | "get" :: rest => run (do
       let c ← pChk; let num ← pNum; let rev ← pBool; let t ← pTerm
       let lines ← pList pStr
